@@ -19,16 +19,19 @@ PROPS["C20"] = dict(
         "operator<< is compared on streams in their default formatting state",
         "variant converting construction/assignment is compared only for argument types on which the C++17 rule "
         "and the later P0608 rule select the same alternative",
+        "reference-side workaround: libstdc++ 12's variant::swap with exactly one valueless operand leaves both "
+        "operands holding the value (contrary to [variant.swap]); for that shape only, the std side performs the "
+        "exchange with three moves",
         "after a throwing emplace std may keep the old value for never-valueless alternatives; the throwing "
         "alternative used here is not one of them, so both sides must become valueless",
         SC_NOTE,
     ],
     runs=[
-        run("sv", "c20_rc", "sv_ops", "rc", dict(procs=3, cases=20000), dict(procs=6, cases=300000)),
-        run("span", "c20_rc", "span_ops", "rc", dict(procs=2, cases=15000), dict(procs=2, cases=200000)),
-        run("uptr", "c20_rc", "uptr_ops", "rc", dict(procs=2, cases=15000), dict(procs=4, cases=200000)),
-        run("sptr", "c20_rc", "sptr_ops", "rc", dict(procs=3, cases=15000), dict(procs=6, cases=200000)),
-        run("fref", "c20_rc", "fref_ops", "rc", dict(procs=1, cases=10000), dict(procs=2, cases=100000)),
-        run("variant", "c20_rc", "var_ops", "rc", dict(procs=3, cases=15000), dict(procs=6, cases=200000)),
+        run("sv", "c20_rc", "sv_ops", "rc", dict(procs=3, cases=30000), dict(procs=4, cases=300000)),
+        run("span", "c20_rc", "span_ops", "rc", dict(procs=2, cases=20000), dict(procs=2, cases=200000)),
+        run("uptr", "c20_rc", "uptr_ops", "rc", dict(procs=2, cases=25000), dict(procs=2, cases=250000)),
+        run("sptr", "c20_rc", "sptr_ops", "rc", dict(procs=4, cases=20000), dict(procs=4, cases=250000)),
+        run("fref", "c20_rc", "fref_ops", "rc", dict(procs=1, cases=15000), dict(procs=1, cases=150000)),
+        run("variant", "c20_rc", "var_ops", "rc", dict(procs=4, cases=20000), dict(procs=3, cases=250000)),
     ],
 )
